@@ -1047,3 +1047,23 @@ pub fn content_of(id: u64) -> std::vec::Vec<u8> {
     }
     harness_bug("Bytes content is abstract: stub the caller by its contract")
 }
+
+/// harness side: the key `EnumName::Variant` of a unit variant of any `#[contracttype]` enum (the
+/// host identifies it by the variant name only)
+#[derive(Clone, Copy, Debug)]
+pub struct UnitKey(pub &'static str);
+impl Wordy for UnitKey {
+    const NW: usize = 1;
+    fn to_words(&self, out: &mut Words) {
+        out.push(crate::fnv(self.0));
+    }
+    fn from_words(_r: &mut Reader) -> Self {
+        harness_bug("UnitKey from words")
+    }
+    fn symbolic() -> Self {
+        harness_bug("UnitKey symbolic")
+    }
+}
+pub const OWNER_KEY: UnitKey = UnitKey("Interfaces_Owner");
+pub const OPERATOR_KEY: UnitKey = UnitKey("Interfaces_Operator");
+pub const MIGRATING_KEY: UnitKey = UnitKey("Interfaces_Migrating");
